@@ -51,6 +51,8 @@ def gen_direct(rng):
             pts.add(x[-1] + rng.choice([Fraction(1, 2), 2, 5]))
     if rng.random() < 0.15 or (len(x) > 16 and rng.random() < 0.6):
         pts = set(x) | pts
+    if rng.random() < 0.12:
+        pts = {Fraction(int(v)) for v in pts}
     m = rng.choice(METHODS) if rng.random() < 0.92 else rng.choice(["quadratic", "nearest", "Linear", ""])
     return {"kind": "direct", "x": [str(v) for v in x], "y": [str(v) for v in y], "new": [str(v) for v in sorted(pts)],
             "method": m, "affine": affine}
@@ -100,7 +102,10 @@ def run_impl(c):
         try:
             with warnings.catch_warnings():
                 warnings.simplefilter("ignore")
-                r = interpolate(np.array(floats(x)), np.array(floats(y)), np.array(floats(new)), method=c["method"])
+                na = np.array(floats(new))
+            if all(v.denominator == 1 for v in new):
+                na = np.array([int(v) for v in new])        # an integer-dtype grid (np.arange, a list of ints)
+            r = interpolate(np.array(floats(x)), np.array(floats(y)), na, method=c["method"])
             if r is None:
                 return {"none": True}
             out = {"ok": [float(v) for v in r]}
